@@ -230,6 +230,26 @@ PLAN = {
         quick=[rapid("prop", "TestProp", 300, race=True, env={"GORACE": "halt_on_error=1"}, shrinktime="5s")],
         thorough=[rapid("prop", "TestProp", 600, shards=16, race=True, env={"GORACE": "halt_on_error=1"}, gomaxprocs=[2, 4, 8, 16], shrinktime="5s")],
     ),
+    "C17": dict(
+        pkg="c17",
+        replay_race=True,
+        rule=("(seq) rapid-generated sequential histories of RegisterDecorationName (incl. overwrites), Named, RegisteredDecorationNames and renders by name over a per-case pool of fresh names that sort before, between or after the built-ins, "
+              "against a map model: lookup = latest registered value or the empty decoration; listing strictly sorted (hence duplicate-free) and, projected onto the case's names and the built-ins, equal to the model's key set plus all six built-ins. "
+              "(conc) 2..6 goroutines x 3..9 such operations each, every call stamped with an atomic logical clock at call and return, followed by quiescent reads of every name and the listing; the recorded history is checked for linearizability "
+              "against the same map specification with porcupine (every registered value is unique, so a read identifies the write it saw); built with the race detector. (burst) 2..32 goroutines each registering their own name 1..3 times, 20..60 rounds, "
+              "then Named must return the latest and the listing must contain every name. (unknown) SetDecorationNamed of unknown names (\"\", case variants, names with trailing characters, sub-package names) must return an error and both the receiver and the returned table must refuse to render. "
+              "Non-trivial: an overwrite (seq); one name written by two goroutines or a listing overlapping registrations (conc); >=2 goroutines (burst). Distinct: FNV-64 of the case."),
+        level_text=("Model-based testing of sequential histories; generated concurrent histories under the Go race detector checked for linearizability (porcupine) against the sequential map model; final-state checks after registration bursts. "
+                    "Schedules are sampled, not enumerated. Exploration level."),
+        level_note="The registry is process-global and never shrinks: each case uses fresh names and listings are projected. The linearizability verdict is exact for each recorded history; which histories occur depends on Go's scheduler.",
+        technique="model-based property testing (rapid) + race detector + linearizability checking (porcupine) of recorded concurrent histories",
+        quick=[rapid("seq", "TestSeq", 1000, shards=3, race=True, env={"GORACE": "halt_on_error=1"}), rapid("conc", "TestConc", 300, race=True, env={"GORACE": "halt_on_error=1"}, shrinktime="5s"),
+               rapid("burst", "TestBurst", 60, race=True, env={"GORACE": "halt_on_error=1"}, shrinktime="5s"), rapid("unknown", "TestUnknown", 500, race=True)],
+        thorough=[rapid("seq", "TestSeq", 2000, shards=16, race=True, env={"GORACE": "halt_on_error=1"}),
+                  rapid("conc", "TestConc", 2000, shards=12, race=True, env={"GORACE": "halt_on_error=1"}, gomaxprocs=[2, 4, 8, 16], shrinktime="5s"),
+                  rapid("burst", "TestBurst", 300, shards=8, race=False, env={"VERIF_C17_BURST_ROUNDS": 400}, gomaxprocs=[4, 8, 16, 16], shrinktime="5s"),
+                  rapid("unknown", "TestUnknown", 5000, race=True)],
+    ),
     "C18": dict(
         pkg="c18",
         rule=("strings built from a width-hostile token alphabet (newlines leading/trailing/repeated, CJK wide, full-width, combining, zero-width, emoji ZWJ/flag/skin-tone sequences, "
